@@ -18,7 +18,7 @@ import (
 // are symbolic.
 func VH_C09_votes(n int, m int, pat int, ed int) {
 	w := cert.VNewWorld(1, n, ed == 1, 0, vsymbolic(), core.WithSyncVerification())
-	q := hotstuff.QuorumSize(n)
+	q := hotstuff.VQuorumRef(n)
 	el := eventloop.New(logging.VNop(), 100)
 	state, err := protocol.NewViewStates(w.Chain, w.Auth)
 	vassert(err == nil, "viewstates")
@@ -127,7 +127,7 @@ func VH_C09_votes(n int, m int, pat int, ed int) {
 // symbolic) arrive first, then honest single votes from a rotation of q distinct replicas.
 func VH_C09_hostile_then_honest(n int, h int, two int, where int) {
 	w := cert.VNewWorld(1, n, false, 0, vsymbolic(), core.WithSyncVerification())
-	q := hotstuff.QuorumSize(n)
+	q := hotstuff.VQuorumRef(n)
 	el := eventloop.New(logging.VNop(), 100)
 	state, err := protocol.NewViewStates(w.Chain, w.Auth)
 	vassert(err == nil, "viewstates")
